@@ -54,6 +54,9 @@ def run(ctx, w):
     c06.linefeed_rule(ctx, w, S, R, up)
     prims.scroll_primitives(ctx, w, S, "T9")
     ctx.floor("T9", 500, "scroll primitive evaluations")
+    # "however much has scrolled into an unlimited scrollback": no limit means nothing is ever removed
+    if T.ok:
+        shared.gc_verdict(ctx, w, S, T, "T10")
     # every printable character and CR / LF reaches its handler (Ground row of the transition table)
     from rules import c03, tables
     c03.run_transition(ctx, w, tables.parser_tables(w), only_states=["Ground"], rule="T0")
